@@ -1031,4 +1031,10 @@ CASES = [
                                 .count())""", """    uint64_t const ts_now = _options.log_timestamp_ordering_grace_period.count()
       ? (detail::get_timestamp_ns<std::chrono::system_clock>() - static_cast<uint64_t>(_options.log_timestamp_ordering_grace_period.count()))""")]),
  dict(name="c02-empty-ignores-next-node", ids=["C02", "C03", "C05", "C07"], rule="R", subs=[(U, "    return _consumer->bounded_queue.empty() && (_consumer->next.load(std::memory_order_relaxed) == nullptr);", "    return _consumer->bounded_queue.empty();")]),
+
+ dict(name="c08-prefix-context-removed-with-unreported-count", ids=["C08"], rule="C08.R4e", subs=[(BW, """      // report the drop / blocking counts first: the thread has exited, so its counter is final, and the
+      // context that is removed below takes the counter with it
+      _check_failure_counter(_options.error_notifier);
+
+""", "")]),
 ]
